@@ -28,16 +28,16 @@ def find(i, ones=True, want=4):
     B, W = 1 << (64 * (i + 1)), 1 << (64 * i)
     Mi = M % B
     # lattice of (q * scale, (q*Mi mod B) centred): L = {(q, q*Mi - k*B)}; we look for q in (0,2^64), value v = q*Mi mod B in the window.
-    # scale the first coordinate by W so that both bounds are ~ B: basis (W, Mi), (0, B)
-    b1, b2 = lagrange((W, Mi), (0, B))
+    SC = W >> 64          # balance: q*SC < 2^64*SC = W and |q*Mi - k*B| <= W
+    b1, b2 = lagrange((SC, Mi), (0, B))
     out = set()
     rng = range(-40, 41)
     for a in rng:
         for b in rng:
             x = a * b1[0] + b * b2[0]
-            if x % W:
+            if x % SC:
                 continue
-            q = x // W
+            q = x // SC
             if not (0 < q < (1 << 64)):
                 continue
             v = q * Mi % B
@@ -75,7 +75,7 @@ def main():
                         ha = ha2 if ha2 < (1 << 320) and ha2 - prod < M else ha
                     if ha - prod >= M or ha < prod:
                         continue
-                    print('s9_modn %s' % ('%080x' % ha))
+                    print('n_from_hash %s' % ('%080x' % ha))
     return 0
 
 
